@@ -60,6 +60,47 @@ impl W {
             assert_eq!(self.s.get(r, c), oct(self.m[r][c]), "sparse get({r},{c}) {ctx}");
         } } }
         self.queries += 2 * self.h * self.w;
+        self.edge_queries();
+    }
+    /// queries at the edges of the matrix: first / last row, spans that start at column 0 or end exactly at
+    /// the width, single-column spans at both ends (word-boundary arithmetic lives here)
+    fn edge_queries(&mut self) {
+        let (h, w) = (self.h, self.w);
+        if h == 0 || w == 0 { return; }
+        let fd = self.first_dense();
+        let mut rows = vec![0, h - 1]; rows.dedup();
+        for &r in &rows {
+            let mut spans = vec![(0, w), (w - 1, w), (0, 1), (w / 2, w), (0, fd.max(1)), (fd.min(w - 1), w)];
+            if w > 64 { spans.push((w - 64, w)); spans.push((63, w)); spans.push((64.min(w - 1), w)); }
+            for (a, b) in spans {
+                if a >= b || b > w || !self.defined(r, a, b) { continue; }
+                let want = self.ones(r, a, b);
+                assert_eq!(self.d.count_ones(r, a, b), want.len(), "dense count_ones({r},{a},{b}) of {h}x{w}");
+                let got: Vec<(usize, Octet)> = self.d.get_row_iter(r, a, b).collect();
+                assert_eq!(got.len(), b - a, "dense iter({r},{a},{b}) yields every column");
+                for (k, (c, v)) in got.iter().enumerate() { assert_eq!(*c, a + k); assert_eq!(*v, oct(self.m[r][*c]), "dense iter({r},{a},{b}) col {c}"); }
+                if self.defined(r, a, w) { assert_eq!(self.d.query_non_zero_columns(r, a), self.ones(r, a, w), "dense nonzero cols (edge) row {r} from {a} of {h}x{w}"); }
+                if b <= fd {
+                    assert_eq!(self.s.count_ones(r, a, b), want.len(), "sparse count_ones({r},{a},{b}) of {h}x{w}");
+                    let got: BTreeSet<usize> = self.s.get_row_iter(r, a, b).filter(|x| x.1 != Octet::zero()).map(|x| x.0).collect();
+                    assert_eq!(got, want.iter().copied().collect::<BTreeSet<_>>(), "sparse iter({r},{a},{b})");
+                }
+                self.queries += 4;
+            }
+            if self.tail > 0 && self.defined(r, fd, w) {
+                let want = super::kern::pack_bits(&self.m[r][fd..]);
+                assert_eq!(self.d.get_sub_row_as_octets(r, fd).verif_words().0, &want[..], "dense packed sub row (edge) {r} from {fd}");
+                assert_eq!(self.s.get_sub_row_as_octets(r, fd).verif_words().0, &want[..], "sparse packed sub row (edge) {r} from {fd}");
+                let mut got = self.s.query_non_zero_columns(r, fd); got.sort_unstable();
+                assert_eq!(got, self.ones(r, fd, w), "sparse nonzero cols (edge) row {r}");
+                self.queries += 3;
+            }
+        }
+        for &c in &[0usize, w - 1] {
+            let got: BTreeSet<u32> = self.d.get_ones_in_column(c, 0, h).into_iter().collect();
+            for rr in 0..h { if self.m[rr][c] != U { assert_eq!(got.contains(&(rr as u32)), self.m[rr][c] == 1, "dense ones_in_col({c}) (edge) row {rr}"); } }
+            self.queries += 1;
+        }
     }
     fn random_queries(&mut self, rng: &mut Rng, n: usize) {
         for _ in 0..n {
@@ -233,9 +274,20 @@ pub fn run_sequence(seed: u64) -> (usize, usize, usize, [usize; 6]) {
                            let start = if rng.chance(25) { feat[1] += 1; x.first_dense() } else { 0 }; x.add_rows(a, b, start); }
             5 => { let (r, c) = (rng.below(x.h), rng.below(x.w)); let v = rng.below(2) as u8; x.set(r, c, v); }
             6 => { if x.first_dense() >= 2 { let a = rng.below(x.first_dense()); let b = rng.below(x.first_dense()); x.swap_cols(a, b, &mut rng); } }
-            // resize only in the last round: the sparse implementation reserves it for the time "after column
-            // indexing is no longer needed", so the index is never re-enabled after a resize
-            7 => { if round + 1 == rounds && rng.chance(25) {
+            // a resize that lowers the height only in the last round: the sparse implementation reserves resize
+            // for the time "after column indexing is no longer needed", and its index builder is sized by the
+            // height, so the index is only re-enabled after resizes that kept the height
+            7 => { if round + 1 < rounds && rng.chance(12) && x.w - x.tail >= 2 {
+                       // width-only shrink (all dense columns and possibly some sparse ones dropped, height
+                       // kept): the column index is rebuilt by the next enable from what is left
+                       let new_w = rng.range(1, x.w - x.tail);
+                       if new_w <= x.h {
+                           x.d.resize(x.h, new_w); x.s.resize(x.h, new_w);
+                           for row in x.m.iter_mut() { row.truncate(new_w); }
+                           x.tail = 0; x.w = new_w; x.col_valid.truncate(new_w); x.ops += 1; feat[2] += 1;
+                           x.check_all("after width-only resize");
+                       }
+                   } else if round + 1 == rounds && rng.chance(25) {
                        let new_w = if rng.chance(50) || x.w - x.tail < 1 { x.w } else { rng.range(1, x.w - x.tail) };
                        let lo = new_w; let new_h = rng.range(std::cmp::min(lo, x.h), x.h);
                        x.d.resize(new_h, new_w); x.s.resize(new_h, new_w);
